@@ -11,6 +11,7 @@ Protocol of the MLW weight codec (C07).  `-` stands for an empty list / empty st
             `mismatch idx=<i> got=<v|none> exp=<v|none> n=<decoded> slices=<…>` | `bad-frame end=<pos>` | `bad-config` | `bad-src`
 * `reorder <p csv>` → `ok <row-major source index or -1 for padding>,…` | `bad-config`
 * `reordercovers <p csv>` → `len=<n> plen=<closed-form padded length> pad=<k> covers=<0|1>` | `bad-config`
+* `mlwvalid <src csv>` → `1` when every weight lies in -255..255 (the encoder must accept), `0` when it must reject
 * `mlwframe <pos>` → `<bits appended after a last slice ending at pos, as 0/1 string> bytes=<total bytes>`
 -/
 namespace VelaVerif.Handlers.Mlw
@@ -92,6 +93,8 @@ def handle : List String → Option String
     match reorder p with
     | none => some "bad-config"
     | some cs => some s!"len={cs.length} plen={paddedLength p} pad={(cs.filter Option.isNone).length} covers={boolStr (covers p cs)}"
+  | ["mlwvalid", src] => do
+    some (boolStr (weightsInRange (← parseCsvInts src)))
   | ["mlwframe", pos] => do
     let pos ← parseNat? pos
     some (String.ofList ((frameBits pos).map fun b => if b then '1' else '0') ++ s!" bytes={frameBytes pos}")
